@@ -10,6 +10,7 @@ import FordModel.FixedTree
 import FordModel.FixedProject
 import FordModel.Reader
 import FordModel.Lemmas.Fixed
+import FordModel.Lemmas.FixedRead
 import FordModel.Generated.C14
 namespace Ford.C14
 open Ford Ford.Fixed
@@ -561,5 +562,117 @@ example :
         [("      integer n".toList ++ List.replicate 57 ' ' ++ "FILL0020\n".toList)]).toOption))
       = some (⟨true, false, true⟩, some [("integer n".toList ++ List.replicate 57 ' ' ++ "FILL0020".toList)]) := by
   decide
+
+/-! ### Round 6 - converter and reader composed on one continued statement -/
+
+/-- **A fixed-form statement continued over any number of lines is read as one logical line**
+    (round 6; the composition of the converter with the reader that was "only corresponded").
+    The file: an initial line (any label, column 6 blank or `0`), then any mixture of held-back
+    lines (comment lines of every style, blank lines, `!`-lines) and continuation lines (any
+    column-6 character), a last continuation line, then the rest of the file (which starts a new
+    statement).  `list(FortranReader(file, fixed=True, length_limit=lim))` - converter, then
+    reader - yields the items of the single logical line obtained by joining the statement
+    fields (`Mid.join`: one blank between the pieces), split at `;` outside literals, followed
+    by what the rest of the file yields.  The hypotheses on the individual lines are those of
+    C02's `layout_join`, stated on the *free-form equivalent* of each fixed-form line
+    (`freeLine`): no doc comment on it and its code part is the intended piece;
+    `comment_line_between_is_transparent` / `continuation_line_code_part` below discharge them
+    from the spelling of the fixed-form line.  Every variant of the code, both limit settings,
+    every mark set; no bound on the number of lines. -/
+theorem fixed_statement_reads_as_one_logical_line (v : Variant) (lim : Bool) (m : Marks)
+    (lab5 : Str) (c6 : Char) (body0 : Str) (mid : List Item) (cn : Char) (bodyn : Str) (rest : List Item)
+    (hwf : WF v (.init lab5 c6 body0 :: (mid ++ .cont cn bodyn :: rest)))
+    (hmid : ∀ it ∈ mid, it.midOk = true) (hrest : nextIsCont rest = false)
+    (x : Char) (r : Str) (mids : List Mid) (lead : Bool) (b : Str)
+    (h0 : NoDoc m false (dropNL (freeLine v lim (.init lab5 c6 body0) true)))
+    (hc0 : codeOf false (dropNL (freeLine v lim (.init lab5 c6 body0) true)) = x :: r ++ ['&']) (hx : x ≠ '&')
+    (hr : Rendered m (' ' :: x :: r) mids (mid.map fun it => dropNL (midFree v lim it)))
+    (hn : NoDoc m (unterminated (mids.foldl Mid.join (' ' :: x :: r)))
+      (dropNL (freeLine v lim (.cont cn bodyn) false)))
+    (hcn : codeOf (unterminated (mids.foldl Mid.join (' ' :: x :: r)))
+      (dropNL (freeLine v lim (.cont cn bodyn) false)) = lastCode lead b)
+    (hb : isBlank b = false) (hl : b.getLast? ≠ some '&')
+    (hh : lead = false → ∃ y t, b = y :: t ∧ y ≠ '&')
+    (hJ : itemsOf (Mid.join (mids.foldl Mid.join (' ' :: x :: r)) (.cont lead b)) ≠ []) :
+    readAll m ((convertToFree v lim (renderFixed (.init lab5 c6 body0 :: (mid ++ .cont cn bodyn :: rest)))).map dropNL) =
+      match readAll m ((convertToFree v lim (renderFixed rest)).map dropNL) with
+      | .error e => .error e
+      | .ok more => .ok (itemsOf (Mid.join (mids.foldl Mid.join (' ' :: x :: r)) (.cont lead b)) ++ more) := by
+  have hwr : WF v rest := ⟨fun it hm => hwf.1 it (by simp [hm]), hrest⟩
+  rw [convertToFree_simulation v lim _ hwf, convertToFree_simulation v lim rest hwr]
+  simp only [renderFree, Item.isRegular, Bool.true_and]
+  rw [nextIsCont_mid mid cn bodyn rest hmid, renderFree_mid v lim mid cn bodyn rest hmid]
+  simp only [renderFree, Item.isRegular, Bool.true_and, hrest, List.map_cons, List.map_append, List.map_map]
+  exact continuation_join m _ x r mids _ _ lead b _ h0 hc0 hx hr hn hcn hb hl hh hJ
+
+/-- **Comment lines of every style between the lines of a statement are transparent to the
+    reader.**  The free-form equivalent of a `c`/`C`/`*`/`!` comment line whose text does not
+    begin with a documentation mark carries no doc comment and no code: in
+    `fixed_statement_reads_as_one_logical_line` it is a `Mid.blank`, the joined text is
+    unchanged by it. -/
+theorem comment_line_between_is_transparent (v : Variant) (lim : Bool) (m : Marks) (c : Char) (t : Str)
+    (J : Str) (hJ : unterminated J = false)
+    (h1 : startsWith t m.pre = false) (h2 : startsWith t m.preAlt = false)
+    (h3 : startsWith t m.alt = false) (h4 : startsWith t m.doc = false) (ht : t.getLast? ≠ some '\n') :
+    dropNL (midFree v lim (.comment c (t ++ ['\n']))) = '!' :: t ∧
+    NoDoc m (unterminated J) ('!' :: t) ∧ codeOf (unterminated J) ('!' :: t) = Mid.blank.code ∧
+    Mid.blank.join J = J := by
+  have hd : dropNL (midFree v lim (.comment c (t ++ ['\n']))) = '!' :: t := by
+    have : ('!' :: (t ++ ['\n'])) = ('!' :: t) ++ ['\n'] := rfl
+    simp only [midFree, freeLine, dropNL, this, List.getLast?_append, List.dropLast_concat]
+    simp
+  rw [hJ]
+  exact ⟨hd, (comment_line_no_code m t h1 h2 h3 h4).1, (comment_line_no_code m t h1 h2 h3 h4).2, rfl⟩
+
+/-- non-vacuity of `fixed_statement_reads_as_one_logical_line`: label, column-6 `0`, three
+    continuation characters, a `C` comment line, a blank line and a `*` comment line in between,
+    then a second statement - two items, the first one the joined statement -/
+example :
+    (readAll Marks.default ((convertToFree Variant.repaired true
+      ["  10 0call f(a,\n".toList, "C note\n".toList, "     &  b,\n".toList, "\n".toList, "* more\n".toList,
+       "     1  c)\n".toList, "      x = 1\n".toList]).map dropNL)).toOption
+      = some ["10 call f(a, b, c)".toList, "x = 1".toList] := by decide
+
+/-- **The statement field of a continuation line is the piece that is joined** - whatever the
+    continuation character in column 6.  For a continuation line that is not cut (limit off, or
+    nothing beyond column 72) whose statement field is comment-free and quote-closed, does not
+    start with `&` or `#` and is not blank: its free-form equivalent is the field with ` &`
+    appended, carries no doc comment, and in `fixed_statement_reads_as_one_logical_line` it is the
+    piece `Mid.cont false` of the field without the blanks around it - joined to what came before
+    with exactly one blank. -/
+theorem continuation_line_code_part (v : Variant) (lim : Bool) (m : Marks) (c : Char) (body J : Str)
+    (hJ : unterminated J = false) (hshort : lim = false ∨ body.length ≤ 66)
+    (hs : Atoms (rstrip body ++ [' ', '&'])) (hne : isBlank (rstrip body) = false)
+    (hhead : ∀ y, (lstrip (rstrip body)).head? = some y → y ≠ '&' ∧ y ≠ '#') :
+    dropNL (midFree v lim (.cont c body)) = rstrip body ++ [' ', '&'] ∧
+    NoDoc m (unterminated J) (rstrip body ++ [' ', '&']) ∧
+    codeOf (unterminated J) (rstrip body ++ [' ', '&']) = (Mid.cont false (lstrip (rstrip body) ++ [' '])).code ∧
+    (Mid.cont false (lstrip (rstrip body) ++ [' '])).wf ∧
+    (Mid.cont false (lstrip (rstrip body) ++ [' '])).join J = strip J ++ ' ' :: (lstrip (rstrip body) ++ [' ']) := by
+  obtain ⟨y, r, hy, hsp⟩ := lstrip_ne_nil_of_not_blank _ hne
+  have hyy := hhead y (by simp [hy])
+  have hd : dropNL (midFree v lim (.cont c body)) = rstrip body ++ [' ', '&'] := by
+    have hcond : (lim && decide (body.length > 66)) = false := by
+      rcases hshort with h | h
+      · simp [h]
+      · have : ¬ body.length > 66 := by omega
+        simp [this]
+    have : rstrip body ++ [' ', '&', '\n'] = (rstrip body ++ [' ', '&']) ++ ['\n'] := by simp
+    simp only [midFree, freeLine, Item.isRegular, freeCode, hcond, Bool.false_eq_true, ↓reduceIte,
+      List.nil_append, this, dropNL, List.getLast?_append, List.dropLast_concat]
+    simp
+  rw [hJ]
+  refine ⟨hd, ⟨?_, matchDocmark_plain _ _ hs, matchDocmark_plain _ _ hs, matchDocmark_plain _ _ hs,
+    matchDocmark_plain _ _ hs⟩, ?_, ?_, rfl⟩
+  · simp only [firstStripped, lstrip_append_of_not_blank _ _ hne, hy]
+    simpa using hyy.2
+  · rw [codeOf_continued _ hs hne]; rfl
+  · exact ⟨y, r ++ [' '], by simp [hy], hyy.1⟩
+
+/-- non-vacuity of `continuation_line_code_part`: column 6 is `$`, the field has blanks on both
+    sides and a literal with `!` and `&` in it -/
+example :
+    dropNL (midFree Variant.repaired true (.cont '$' "   b // 'it!&'  ".toList)) = "   b // 'it!&' &".toList ∧
+    codeOf false "   b // 'it!&' &".toList = (Mid.cont false "b // 'it!&' ".toList).code := by decide
 
 end Ford.C14
